@@ -109,7 +109,8 @@ pub fn hlg_oo(
 
     for ((r, g), b) in samples_r.iter_mut().zip(samples_g).zip(samples_b) {
         let mixed = r.mul_add(lr, g.mul_add(lg, *b * lb));
-        let mult = mixed.powf(exp);
+        // `exp` can be negative; keep the multiplier finite so that black stays black.
+        let mult = mixed.powf(exp).min(1e9);
         *r *= mult;
         *g *= mult;
         *b *= mult;
@@ -134,7 +135,8 @@ pub fn hlg_inverse_oo(
 
     for ((r, g), b) in samples_r.iter_mut().zip(samples_g).zip(samples_b) {
         let mixed = r.mul_add(lr, g.mul_add(lg, *b * lb));
-        let mult = mixed.powf(exp);
+        // `exp` can be negative; keep the multiplier finite so that black stays black.
+        let mult = mixed.powf(exp).min(1e9);
         *r *= mult;
         *g *= mult;
         *b *= mult;
